@@ -3,6 +3,8 @@ import LdkModel.Model.Channel
 import LdkModel.Proofs.Channel.Guarded
 import LdkModel.Model.MonGate
 import LdkModel.Model.TxBuilder
+import LdkModel.Model.Closing
+import LdkModel.Model.SendLimit
 namespace Ldk.Driver
 open Ldk Ldk.Chan
 
@@ -34,11 +36,18 @@ structure ChanParams where
   dust : Nat
   ty : TxB.ChanType
   funderIsA : Bool
+  /-- the send-check parameters of the two nodes (directive `sendcfg`), when known -/
+  cfgA : Option SendCfg := none
+  cfgB : Option SendCfg := none
   deriving Inhabited
 
 def insPair (x : Bool × Nat) : List (Bool × Nat) → List (Bool × Nat)
   | [] => [x]
   | y :: ys => if (x.1 == false && y.1 == true) || (x.1 == y.1 && x.2 ≤ y.2) then x :: y :: ys else y :: insPair x ys
+
+def showDirs (l : List TxB.HTLCAmountDirection) : String :=
+  let nd := (l.map (fun h => (h.outbound, h.amount_msat))).foldr insPair []
+  if nd.isEmpty then "-" else ",".intercalate (nd.map (fun h => (if h.1 then "o" else "i") ++ toString h.2))
 
 /-- the transaction the signer `x` built for its peer, through the commitment-builder model of C01 -/
 def showBuilt (p : ChanParams) (total : Nat) (xIsA : Bool) (c : Commit) : String :=
@@ -67,9 +76,30 @@ def chan : Drv where
       let s0 : Sys := if funder == "a" then s0 else { s0 with a := { s0.a with isFunder := false }, b := { s0.b with isFunder := true } }
       (some (s0, prm), "ok")
     | ["commit", x, adds, fu, fa], some s => ret
-      (match stepG s (.commit (x == "a") (natsOf adds) (natsOf fu) (natsOf fa)) with
+      (let e := Ev.commit (x == "a") (natsOf adds) (natsOf fu) (natsOf fa)
+       match stepG s e with
        | none => (some s, "disabled")
-       | some s' => (some s', "ok " ++ (match lastCs (if x == "a" then s'.pendA else s'.pendB) with | some c => showBuilt p s'.total (x == "a") c | none => "?")))
+       | some s' =>
+         -- the adds of the batch under the REAL admission check on the model's state (when the nodes' parameters are known)
+         let unchecked := match p.cfgA, p.cfgB with
+           | some ca, some cb => (stepChecked ca cb s e).isNone
+           | _, _ => false
+         (some s', "ok " ++ (match lastCs (if x == "a" then s'.pendA else s'.pendB) with | some c => showBuilt p s'.total (x == "a") c | none => "?")
+           ++ (if unchecked then " NOT-ADMITTED-BY-MODEL-LIMIT" else "")))
+    | "sendcfg" :: x :: chanSat :: lim :: maxd :: c0 :: c1 :: c2 :: c3 :: c4 :: c5 :: c6 :: _, some s =>
+      let cons : TxB.ChannelConstraints := { holder_dust_limit_satoshis := nat! c0, counterparty_selected_channel_reserve_satoshis := nat! c1, counterparty_dust_limit_satoshis := nat! c2, holder_selected_channel_reserve_satoshis := nat! c3, counterparty_htlc_minimum_msat := nat! c4, counterparty_max_htlc_value_in_flight_msat := nat! c5, counterparty_max_accepted_htlcs := nat! c6 }
+      let c : SendCfg := { chanValueSat := nat! chanSat, limitingFeerate := if lim == "-" then none else some (nat! lim), maxDustExposureMsat := nat! maxd, ty := p.ty, cons := cons }
+      (some (s, if x == "a" then { p with cfgA := some c } else { p with cfgB := some c }), "ok")
+    | ["stats", x], some s => ret <|
+      let n := if x == "a" then s.a else s.b
+      (some s, s!"v={n.statsValueToSelf} htlcs={showDirs n.statsHtlcs}")
+    | ["lim", x], some s => ret <|
+      let n := if x == "a" then s.a else s.b
+      (match (if x == "a" then p.cfgA else p.cfgB) with
+       | none => (some s, "nocfg")
+       | some c => match n.availableBalances c with
+         | none => (some s, "err")
+         | some a => (some s, s!"{a.next_outbound_htlc_limit_msat} {a.next_outbound_htlc_minimum_msat}"))
     | ["release", x], some s => ret
       (match stepG s (.release (x == "a")) with | none => (some s, "disabled") | some s' => (some s', "ok"))
     | ["raa", x], some s => ret
@@ -88,6 +118,21 @@ def chan : Drv where
     | ["dump", x], some s => ret <|
       let n := if x == "a" then s.a else s.b
       (some s, s!"v={n.valueToSelf} in=[{",".intercalate (n.inb.map (fun h => s!"{h.id}:{h.amt}:{showSt h.st}"))}] out=[{",".intercalate (n.outb.map (fun h => s!"{h.id}:{h.amt}:{showOSt h.st}"))}] awaiting={n.awaitingRaa}")
+    -- cooperative close at the current state (C01): both nodes' closing_negotiation_ready, then the whole closing_signed
+    -- exchange between the funder and the fundee, each building from its OWN value_to_self_msat
+    | ["coopclose", chanSat, dustA, dustB, minA, maxA, minB, maxB], some s => ret <|
+      let rdy (n : Node) := Closing.closing_negotiation_ready n.inb n.outb n.pendingFee true
+      if !(rdy s.a && rdy s.b) then (some s, "notready") else
+      let va : Closing.View := { valueToSelfMsat := s.a.valueToSelf, chanValueSat := nat! chanSat, dust := nat! dustA, isFunder := s.a.isFunder, minFee := nat! minA, maxFee := nat! maxA }
+      let vb : Closing.View := { valueToSelfMsat := s.b.valueToSelf, chanValueSat := nat! chanSat, dust := nat! dustB, isFunder := s.b.isFunder, minFee := nat! minB, maxFee := nat! maxB }
+      let (f, n) := if s.a.isFunder then (va, vb) else (vb, va)
+      let o := Closing.negotiate f n
+      let ms := ",".intercalate (o.msgs.map (fun m => s!"{m.fee}:{(m.range.map (fun r => s!"{r.1}:{r.2}")).getD "-"}"))
+      let orient (t : Closing.Tx) : Nat × Nat := if s.a.isFunder then t else Closing.flip t    -- (to a, to b)
+      let sh (b : Option (Nat × Closing.Tx)) := match b with | none => "-" | some (fee, t) => s!"{fee}/{(orient t).1}/{(orient t).2}"
+      let bA := if s.a.isFunder then o.bF else o.bN
+      let bB := if s.a.isFunder then o.bN else o.bF
+      (some s, s!"msgs={ms} a={sh bA} b={sh bB} err={match o.err with | none => "-" | some .warn => "warn" | some .close => "close"}")
     | ["bal", x], some s => ret <|
       let n := if x == "a" then s.a else s.b
       (some s, s!"{n.valueToSelf}")
@@ -100,22 +145,72 @@ def parseKind (s : String) : MonGate.Kind :=
   else if s == "PaymentPreimage" then .preimage
   else if s == "ChannelForceClosed" then .forceClosed else .other
 
-/-- `mongate`: one monitor per key "n<node>c<chan>"; ops `upd key id kinds inprogress`, `done key id`, `cs key`, `raa key` -/
+def showOut : MonGate.Gate.Out → Option String
+  | .handed id _ => some s!"h{id}"
+  | .raa => some "raa" | .cs => some "cs" | .ready => some "ready" | .readyResent => some "ready"
+  | _ => none
+
+def b01 (b : Bool) : String := if b then "1" else "0"
+
+/-- the gate state in the format of the hook `channel_monitor_gate_dump` (blocked: ids only) + what left since the last dump -/
+def showGate (c : MonGate.Gate.Chan) (rel : List MonGate.Gate.Out) : String :=
+  let bl := if c.blocked.isEmpty then "-" else ",".intercalate (c.blocked.map toString)
+  let hs := rel.filterMap (fun o => match o with | .handed id _ => some (toString id) | _ => none)
+  let r := rel.filterMap (fun o => match o with | .handed _ _ => none | o => showOut o)
+  s!"paused={b01 c.paused} raa={b01 c.pend.raa} cs={b01 c.pend.cs} rdy={b01 c.pend.ready} adds={c.pend.adds.length} fw={c.pend.fwds.length} fl={c.pend.fails.length} ff={c.pend.fulfills.length} latest={c.latest} blocked={bl} disc={b01 c.disconnected} hand={if hs.isEmpty then "-" else ",".intercalate hs} msgs={if r.isEmpty then "-" else ",".intercalate r}"
+
+structure MgSt where
+  mons : List (String × MonGate.St) := []
+  gates : List (String × MonGate.Gate.Chan × List MonGate.Gate.Out) := []
+  /-- fresh tokens for held items -/
+  tok : Nat := 0
+
+/-- `mongate`: one event monitor per key "n<node>c<chan>": ops `upd key id kinds inprogress`, `done key id`, `cs key`, `raa key`;
+    one channel-side gate model (Model/MonGate.lean, `Gate`) per key: ops `g* key …` (each = one `Gate.step`) and `gdump key` -/
 def mongate : Drv where
-  σ := List (String × MonGate.St)
-  init := []
+  σ := MgSt
+  init := {}
   step := fun st ws =>
-    let get (k : String) := (st.lookup k).getD MonGate.St.init
-    let put (k : String) (v : MonGate.St) := (k, v) :: st.filter (fun p => p.1 != k)
-    let go (k : String) (e : MonGate.Ev) : List (String × MonGate.St) × String :=
+    let get (k : String) := (st.mons.lookup k).getD MonGate.St.init
+    let put (k : String) (v : MonGate.St) := (k, v) :: st.mons.filter (fun p => p.1 != k)
+    let go (k : String) (e : MonGate.Ev) : MgSt × String :=
       match MonGate.step (get k) e with
       | none => (st, "violation")
-      | some v => (put k v, "ok")
+      | some v => ({ st with mons := put k v }, "ok")
+    let gput (k : String) (v : MonGate.Gate.Chan × List MonGate.Gate.Out) := (k, v) :: st.gates.filter (fun p => p.1 != k)
+    let gop (k : String) (op : MonGate.Gate.Op) (ntok : Nat) : MgSt × String :=
+      match st.gates.lookup k with
+      | none => (st, "no-gate")
+      | some (c, rel) =>
+        let r := MonGate.Gate.step c op
+        ({ st with gates := gput k (r.1, rel ++ r.2), tok := st.tok + ntok }, "ok")
+    let t (s : String) := s == "1"
     match ws with
     | ["upd", k, id, kinds, ip] => go k (.update (nat! id) ((kinds.splitOn ",").map parseKind) (ip == "1"))
     | ["done", k, id] => go k (.done (nat! id))
     | ["cs", k] => go k .releaseCs
     | ["raa", k] => go k .releaseRaa
+    | ["ginit", k, latest] => ({ st with gates := gput k (MonGate.Gate.Chan.init (nat! latest), []) }, "ok")
+    | ["ginitp", k, latest] =>
+      -- a channel whose INITIAL monitor persist is InProgress: paused, the ChainMonitor reports id `latest` pending
+      ({ st with gates := gput k ({ MonGate.Gate.Chan.init (nat! latest) with paused := true, cmPending := [nat! latest] }, []) }, "ok")
+    | ["gcs", k, nc, ar, ip] => gop k (.csRecv (t nc) (t ar) (t ip)) 0
+    | ["graa", k, freed, rc, hold, na, nf, nl, nu, ip] =>
+      let b := st.tok
+      gop k (.raaRecv (t freed) (t rc) (t hold) (List.range' b (nat! na)) (List.range' (b + nat! na) (nat! nf))
+        (List.range' (b + nat! na + nat! nf) (nat! nl)) (List.range' (b + nat! na + nat! nf + nat! nl) (nat! nu)) (t ip)) (nat! na + nat! nf + nat! nl + nat! nu)
+    | ["gclaim", k, ub, ip] => gop k (.claim (t ub) (t ip)) 0
+    | ["gsend", k, ip] => gop k (.send (t ip)) 0
+    | ["gother", k, ip] => gop k (.other (t ip)) 0
+    | ["gdone", k, id] => gop k (.complete (nat! id)) 0
+    | ["gunblock", k, ip] => gop k (.unblock (t ip)) 0
+    | ["gconfirm", k] => gop k .confirm 0
+    | ["gdisc", k] => gop k .disconnect 0
+    | ["greest", k, nr, ncs, rc] => gop k (.reestablish (t nr) (t ncs) (nat! rc)) 0
+    | ["gdump", k] =>
+      match st.gates.lookup k with
+      | none => (st, "no-gate")
+      | some (c, rel) => ({ st with gates := gput k (c, []) }, showGate c rel)
     | _ => (st, "bad-op")
 
 end Ldk.Driver
